@@ -154,3 +154,42 @@ class StubEmbedding(BaseEstimator, TransformerMixin):
         a = X[:, 0] * 2.0 + X[:, -1] * self.scale + 1.0
         b = X[:, 0] - 3.0 * X[:, -1] + numpy.arange(X.shape[0]) % 3
         return numpy.vstack([a, b]).T
+
+
+class FailOnCall(BaseEstimator, RegressorMixin, ClassifierMixin):
+    """Inner estimator whose k-th fit (counted over all clones since reset()) raises; otherwise a trivial model."""
+    COUNT = [0]
+
+    def __init__(self, k=1):
+        self.k = k
+
+    @classmethod
+    def reset(cls):
+        cls.COUNT[0] = 0
+
+    def fit(self, X, y=None, sample_weight=None):
+        FailOnCall.COUNT[0] += 1
+        if FailOnCall.COUNT[0] == self.k:
+            raise RuntimeError("stub: inner estimator fails on call %d" % self.k)
+        ya = numpy.asarray(y if y is not None else [0.0])
+        yy = ya.ravel()
+        self.classes_ = numpy.unique(yy)
+        if ya.ndim == 2 and ya.shape[1] > 1:
+            self.mean_ = ya.mean(axis=0)
+        else:
+            self.mean_ = yy[0] if yy.dtype.kind in "iuOSU" else float(numpy.mean(yy))
+        return self
+
+    def predict(self, X):
+        n = numpy.asarray(X).shape[0]
+        if isinstance(self.mean_, numpy.ndarray):
+            return numpy.tile(self.mean_, (n, 1))
+        return numpy.array([self.mean_] * n)
+
+    def predict_proba(self, X):
+        out = numpy.zeros((numpy.asarray(X).shape[0], len(self.classes_)))
+        out[:, 0] = 1.0
+        return out
+
+    def transform(self, X):
+        return numpy.asarray(X)[:, :1]
